@@ -13,7 +13,7 @@ TIERS = {
     "quick": {"runs": 3000, "max_wall": 240, "minimise_s": 25, "chunk": 50},
     "thorough": {"runs": 100000, "max_wall": 3000, "minimise_s": 60, "chunk": 200},
 }
-FAULT_KINDS = ["save tick position", "clean stop/restart", "id space jump by presentation"]
+FAULT_KINDS = ["save tick position", "clean stop/restart", "id space jump by presentation", "id request handled while a scheduled save is being written (pre-emptive schedule)"]
 REAL, STUBS, ASSUMPTIONS = netcheck.REAL, netcheck.STUBS, netcheck.ASSUMPTIONS
 REQUIRED_PROBES = ["ids_handed_out", "restarts_with_persistence", "id_space_exhausted"]
 WEIGHTS = {"idreq": 22, "adopt": 6, "present_node": 10, "present_child": 4, "value": 5, "advance": 10, "restart": 5,
@@ -28,6 +28,15 @@ def gen(rng, tier, index):
         cfg["in_prefix"] = rng.choice(["", "gw-out"])
         cfg["out_prefix"] = rng.choice(["", "gw-in"])
     ops = netgen.make_ops(rng, cfg["version"], rng.randint(12, 50), WEIGHTS, nodes=(1, 3))
+    if cfg["persistence"] and cfg["flavour"] not in ("mqtt", "amqtt") and rng.random() < 0.3:
+        # an id request that arrives while a scheduled save is being written (pre-emptive schedule),
+        # then a clean stop and restart, then another id request
+        cfg["sched"] = {"policy": "rw", "seed": rng.getrandbits(32), "p": rng.choice([0.02, 0.08, 0.2])}
+        cfg["max_steps"] = 1_500_000
+        ops.append(["line", f"{rng.choice([5, 6, 7])};255;0;0;17;2.0"])
+        ops.append(["line_at_save", "255;255;3;0;3;"])
+        ops.append(["restart"])
+        ops.append(["line", "255;255;3;0;3;"])
     if "restart" not in [o[0] for o in ops]:
         ops.insert(rng.randrange(len(ops) // 2, len(ops)), ["restart"])
         ops.append(["line", "255;255;3;0;3;"])
